@@ -108,7 +108,7 @@ func init() {
 	register("C16", func(e *Env) {
 		renderPrelude()
 		e.perShard = 60
-		e.rep.Rule = "generated functions of 0-4 parameters whose bodies are if/return decision chains (flat, nested, with else branches, dead code after the return) over their parameters x argument tuples from {0,1,2,3}, called with literal arguments and with argument expressions that mention outer variables named like the function's own parameters (swapped), the result used emitted / tested / compared / in arithmetic / passed to a Go helper / stored; arguments that are themselves user-function calls (nested, after an earlier call); higher-order use (stored, passed as argument, called through a parameter) and recursion (fact, fib, sum, ackermann); calls whose body fails on an unknown identifier where that is tolerated, followed by further calls; judged against a Go reference evaluation of the decision chain; distinct by (function, arguments, use)"
+		e.rep.Rule = "generated functions of 0-4 parameters whose bodies are if/return decision chains (flat, nested, with else branches, dead code after the return) over their parameters x argument tuples from {0,1,2,3}, called with literal arguments and with argument expressions that mention outer variables named like the function's own parameters (swapped), the result used emitted / tested / compared / in arithmetic / passed to a Go helper / stored; arguments that are themselves user-function calls (nested, after an earlier call); higher-order use (stored, passed as argument, called through a parameter) and recursion (fact, fib, sum, ackermann); function bodies spread over several tags that emit text or values before the return that is reached; calls whose body fails on an unknown identifier where that is tolerated, followed by further calls; judged against a Go reference evaluation of the decision chain; distinct by (function, arguments, use)"
 		judge := func(tag, tmpl, want string, binds []Bind) {
 			c := RCase{Tmpl: tmpl, Binds: append(binds, Bind{"id", vGo(107)})}
 			o := e.addRenderCase(tag, c)
@@ -216,6 +216,8 @@ func init() {
 			{`<% let x = "outer" %><% let f = fn(x) { return x + missingname } %><%= if (f("inner") == nil) { %>A<% } %>|<%= x %>|<%= !f("again") %>|<%= x %>`, "A|outer|true|outer"},
 			{`<% let g = fn(p) { let y = "local"
  return missingname } %><%= !g(1) %>|<%= if (y) { %>leak<% } else { %>ok<% } %><% let z = 5 %>|<%= z %>`, "true|ok|5"},
+			{"<% let size = fn(n) { %>\n  <% if (n > 5) { %><% return \"many\" %><% } %>\n  <% return \"few\" %>\n<% } %><%= size(9) %>|<%= size(3) %>|<%= size(3) == \"few\" %>|<%= size(7) + \"!\" %>", "many|few|true|many!"},
+			{`<% let pre = fn(x) { %>text <%= x %> more<% if (x == 1) { %>in-block<% return "one" %><% } %>tail<% return "other" %><% } %><%= pre(1) %>|<%= pre(2) %>|<%= if (pre(1) == "one") { %>eq<% } %>`, "one|other|eq"},
 			{`<% let fact = fn(n) { if (n <= 1) { return 1 } return n * fact(n - 1) } %><%= fact(6) %>`, "720"},
 			{`<% let fib = fn(n) { if (n < 2) { return n } return fib(n - 1) + fib(n - 2) } %><%= fib(10) %>`, "55"},
 			{`<% let sum = fn(n) { if (n == 0) { return 0 } return n + sum(n - 1) } %><%= sum(20) %>`, "210"},
